@@ -156,7 +156,34 @@ def shard(desc):
             c, marks = sc.prefix_case(newid(), 'Covariance', second, meta=dict(meta, swapped=True), weights=xs)
             cases.append(c)
             plan.append(('prefix', c, marks, oracle, 'Covariance', True))
-    logs = run_driver(desc['binary'], ''.join(c.text() for c in cases))
+    # lopsided merges: one chunk thousands to >65536 times larger than the other, both operand orders
+    for nbig, nsmall in desc.get('lopsided', []):
+        big, meta = gen.sequence(rng, n=nbig, scale_range=(-3, 3), max_offset_exp=3, need_spread=True,
+                                 shape=rng.choice(['normal', 'exp_pos', 'arith', 'lognormal']))
+        far = rng.choice([-1.0, 1.0]) * (max(abs(x) for x in big) * rng.choice([3.0, 50.0]) + 1.0)
+        small = [far * (1 + 0.1 * i) for i in range(nsmall)]
+        for small_first in (True, False):
+            xs = (small + big) if small_first else (big + small)
+            n = len(xs)
+            if kind == 'weighted':
+                second = [10.0 ** rng.uniform(-3, 3) for _ in range(n)]
+                oracle = pairs.WeightedOracle(xs, second)
+                types = ['WeightedMeanWithError', 'WeightedMean']
+            else:
+                second = [0.3 * x + rng.gauss(0, 1) * (abs(far) * 0.01 + 1.0) for x in xs]
+                oracle = pairs.CovOracle(xs, second)
+                types = ['Covariance']
+            flat = interleave(xs, second)
+            sizes = (nsmall, nbig) if small_first else (nbig, nsmall)
+            for typ in types:
+                for orient in (0, 1):
+                    c = Case(newid(), typ, meta={'lopsided': True, 'sizes': list(sizes), 'tree': '(LL%d)' % orient})
+                    tc = gen.TreeCompiler(c, gen.chunks_of(flat, sizes, arity=2), arity=2)
+                    tc.build((0, 1, orient))
+                    cases.append(c)
+                    plan.append(('tree', c, tc, oracle, typ, sizes))
+                    res.count('lopsided_histories')
+    logs = run_driver(desc['binary'], ''.join(c.text() for c in cases), timeout=3600)
     for item in plan:
         mode, c = item[0], item[1]
         recs = logs.get(c.id)
